@@ -338,7 +338,10 @@ def run(tier, seed):
     jobs = [("mo", c) for c in cfgs] + [("enum", t) for t in etasks]
     outs = pmap(_job, jobs)
     seen_enum = {}
+    samples = {"mo": [], "enum": []}
     for (kind, _), (cov, payload) in zip(jobs, outs):
+        samples[kind] += cov.samples[:1] if len(samples[kind]) < 3 else []
+        cov.samples = []
         res.cov.merge(cov)
         if kind == "mo":
             res.violations.extend(payload)
@@ -346,6 +349,7 @@ def run(tier, seed):
             for key, what, rp in payload:
                 if key not in seen_enum:
                     seen_enum[key] = Violation(PROP, key, what, dict(rp, engine="enum"))
+    res.cov.samples = samples["mo"][:3] + samples["enum"][:3]
     # report the simplest witness per key (fewest objectives / events), independent of the job order
     res.violations.sort(key=lambda v: (v.replay["cfg"]["k"], len(v.replay["history"]), v.replay["cfg"]["T"],
                                        v.replay["cfg"]["brackets"]))
